@@ -85,14 +85,21 @@ Step(rec) ==
     [] rec.act = "ReportDuring" ->
          \* rec.sent is in wire order; the event (Unsubscribe of rec.j / Tick) happened while the first notification was
          \* on its way: the first one was live before, every later one is live after the event, at its own send time
-         LET st1 == IF rec.ev = "Unsubscribe" /\ st[rec.j].issued /\ rec.evres = "ok" THEN [st EXCEPT ![rec.j].unsub = TRUE, ![rec.j].unsubAt = IF st[rec.j].unsub THEN @ ELSE rec.now] ELSE st
+         LET st1 == IF rec.ev = "Unsubscribe" /\ st[rec.j].issued /\ rec.evres = "ok" THEN [st EXCEPT ![rec.j].unsub = TRUE, ![rec.j].unsubAt = IF st[rec.j].unsub THEN @ ELSE rec.now]
+                    \* a Subscribe served right after the subscribers were selected: a subscription from now on
+                    ELSE IF rec.ev = "Subscribe" /\ rec.evres = "ok"
+                      THEN [st EXCEPT ![rec.j] = [issued |-> TRUE, owner |-> rec.c, filter |-> Rng(rec.f), started |-> rec.now,
+                                                  dur |-> rec.granted, errors |-> 0, unsub |-> FALSE, ended |-> FALSE,
+                                                  endTo |-> rec.endTo, unsubAt |-> 0, gone |-> FALSE]]
+                    ELSE st
              Match(s, i, t) == Alive(s[i], t) /\ rec.a \in s[i].filter
              got == {x.id : x \in SentOf(rec, rec.a)} IN
          /\ Clause("delivered_only_to_subscriptions_live_at_send_time",
                    \A k \in DOMAIN rec.sent :
-                      IF k = 1 THEN Match(st, rec.sent[k].id, now) ELSE Match(st1, rec.sent[k].id, rec.now))
+                      IF k = 1 /\ rec.ev # "Subscribe" THEN Match(st, rec.sent[k].id, now) ELSE Match(st1, rec.sent[k].id, rec.now))
          /\ Clause("delivered_to_every_live_matching_subscription",
                    \A i \in Ids : (Match(st, i, now) /\ Match(st1, i, rec.now)) => (i \in got \/ Broken(rec, st[i])))
+         /\ Clause("subscribe_accepted", rec.ev = "Subscribe" => (rec.evres = "ok" /\ GrantOK(rec.req, rec.granted)))
          /\ Clause("delivered_once", Once(rec))
          /\ Clause("only_this_report", \A x \in Rng(rec.sent) : x.kind = rec.a /\ x.addr = "notify")
          /\ st' = [i \in Ids |-> IF i \in got THEN [st1[i] EXCEPT !.errors = 0]
